@@ -142,7 +142,9 @@ Record OpStep (s s' : sys) (o : oid) (p p' : op) (evs : list event) : Prop := mk
   os_static : op_static p' = op_static p;
   os_slot : o_slot p' = o_slot p;
   os_now : s_now s' = s_now s;
-  os_others : forall o', o' <> o -> get_op s' o' = get_op s o'
+  os_others : forall o', o' <> o -> get_op s' o' = get_op s o';
+  (* the wait-for guard is dropped exactly when the operation finishes *)
+  os_tracked : is_done (o_ph p') = false -> o_tracked p' = o_tracked p
 }.
 
 Lemma send_failed_step s s0 p :
@@ -163,7 +165,8 @@ Proof.
     - reflexivity.
     - reflexivity.
     - rewrite finish_now, W3. exact Hnow.
-    - intros o' Hne. rewrite finish_get_op. apply Nat.eqb_neq in Hne. rewrite Hne, W1. apply Hops. }
+    - intros o' Hne. rewrite finish_get_op. apply Nat.eqb_neq in Hne. rewrite Hne, W1. apply Hops.
+    - cbn. discriminate. }
   destruct (o_kind p).
   - apply (Hgen (RErr ESend) (record_dl (o_tgt p) (o_id p) (o_fn p) CxSend)).
     + intros; apply record_dl_get_op. + intros; apply record_dl_trace. + intros; apply record_dl_now.
@@ -189,6 +192,7 @@ Proof.
     + destruct (o_kind p); reflexivity.
     + unfold after_push. destruct (o_kind p); rewrite ?finish_now; exact Hnow.
     + intros o' Hne. rewrite after_push_get_op. apply Nat.eqb_neq in Hne. rewrite Hne, push_get_op. apply Hops.
+    + destruct (o_kind p); cbn; try discriminate. reflexivity.
   - destruct (o_kind p); reflexivity.
 Qed.
 
@@ -227,6 +231,7 @@ Proof.
         -- apply (finish_trace s _ _ p Hp).
         -- apply finish_now.
         -- intros o' Hne. rewrite finish_get_op. apply Nat.eqb_neq in Hne. rewrite Hne. reflexivity.
+        -- cbn. discriminate.
       * eapply IC_reply; [exact Hph|exact Hs|reflexivity].
     + exists (done_f (RErr EReceive) p), (EvDone (o_id p) (RErr EReceive) :: dl_events (o_tgt p) (o_id p) (o_fn p) CxReply). split.
       * constructor; try reflexivity.
@@ -234,6 +239,7 @@ Proof.
         -- rewrite (finish_trace _ _ _ p) by (rewrite record_dl_get_op; exact Hp). rewrite record_dl_trace. reflexivity.
         -- rewrite finish_now. apply record_dl_now.
         -- intros o' Hne. rewrite finish_get_op. apply Nat.eqb_neq in Hne. rewrite Hne. apply record_dl_get_op.
+        -- cbn. discriminate.
       * eapply IC_reply_dropped; [exact Hph|exact Hs|reflexivity].
 Qed.
 
@@ -253,7 +259,7 @@ Theorem poll_spec s o p :
   exists p' evs, OpStep s (poll o s) o p p' evs /\ PollCase s p p' evs.
 Proof.
   intros Hp Hnd. unfold poll. rewrite Hp, Hnd.
-  destruct (poll_inner_spec s o p Hp Hnd) as (p1 & ev1 & [G T St Sl Nw Ot] & HI).
+  destruct (poll_inner_spec s o p Hp Hnd) as (p1 & ev1 & [G T St Sl Nw Ot Tk] & HI).
   pose proof (get_op_id s o p Hp) as Hid. subst o.
   unfold post_inner. rewrite G.
   pose proof (expired_static s (poll_inner p s) p p1 St Nw) as Hexp.
@@ -262,7 +268,7 @@ Proof.
   assert (Hfn1 : o_fn p1 = o_fn p) by (unfold op_static in St; congruence).
   destruct (is_done (o_ph p1)) eqn:Hd1.
   - (* the inner poll finished the operation *)
-    exists p1, ev1. split; [constructor; assumption|].
+    exists p1, ev1. split; [constructor; try assumption; intros Hc; first [congruence | apply Tk; reflexivity]|].
     inversion HI; subst; try (rewrite H in Hd1; rewrite Hnd in Hd1; discriminate);
       try (rewrite H3 in Hd1; discriminate).
     + eapply PC_accept_done; eassumption.
@@ -284,10 +290,11 @@ Proof.
         -- rewrite finish_now, record_dl_now, cancel_inner_now. exact Nw.
         -- intros o' Hne. rewrite finish_get_op. apply Nat.eqb_neq in Hne. rewrite Hne, record_dl_get_op, cancel_inner_get_op.
            apply Ot. apply Nat.eqb_neq. exact Hne.
+        -- cbn. discriminate.
       * inversion HI; subst; try (rewrite H3 in Hd1; discriminate); try (rewrite H1 in Hd1; discriminate).
         -- eapply PC_timeout; [exact He|reflexivity|left; reflexivity|assumption].
         -- eapply PC_timeout; [exact He|reflexivity|right; repeat split; assumption|]. intros E. congruence.
-    + exists p1, ev1. split; [constructor; assumption|].
+    + exists p1, ev1. split; [constructor; try assumption; intros Hc; first [congruence | apply Tk; reflexivity]|].
       inversion HI; subst; try (rewrite H3 in Hd1; discriminate); try (rewrite H1 in Hd1; discriminate).
       * apply PC_pending; assumption.
       * eapply PC_accept_ask; eassumption.
@@ -305,6 +312,7 @@ Proof.
   - reflexivity.
   - rewrite finish_now. apply cancel_inner_now.
   - intros o' Hne. rewrite finish_get_op. apply Nat.eqb_neq in Hne. rewrite Hne. apply cancel_inner_get_op.
+  - cbn. discriminate.
 Qed.
 
 Lemma cancel_noop s o :
@@ -365,13 +373,13 @@ Proof.
         * right. left. repeat split; assumption.
         * left. rewrite Eph. split; [reflexivity|]. rewrite <- Hk. eapply BC_accept_done; try eassumption; congruence.
       + exists p, []. split; [constructor; try reflexivity; exact Hp|]. right. right. repeat split; assumption. }
-  destruct Hinner as (p1 & ev1 & [G T St Sl Nw Ot] & Hcase).
+  destruct Hinner as (p1 & ev1 & [G T St Sl Nw Ot Tk] & Hcase).
   unfold post_inner. rewrite G.
   pose proof (expired_static s1 (try_send p s1) p p1 St Nw) as Hexp.
   assert (Htg1 : o_tgt p1 = o_tgt p) by (unfold op_static in St; congruence).
   assert (Hfn1 : o_fn p1 = o_fn p) by (unfold op_static in St; congruence).
   destruct Hcase as [[Hd HB]|[(Eph & Hk & Hc & Hf & ->)|(Eph & Hc & Hf & ->)]].
-  - rewrite Hd. exists p1, ev1. split; [constructor; assumption|exact HB].
+  - rewrite Hd. exists p1, ev1. split; [constructor; try assumption; intros Hc; first [congruence | apply Tk; reflexivity]|exact HB].
   - rewrite Eph. cbn [is_done]. rewrite Hexp. destruct (expired p s1) eqn:He.
     + exists (done_f (RErr ETimeout) p1), (EvDone (o_id p) (RErr ETimeout) :: dl_events (o_tgt p) (o_id p) (o_fn p) CxElapsed ++ [EvAccept (o_tgt p) (o_id p) KAsk]).
       split.
@@ -382,8 +390,9 @@ Proof.
         -- rewrite finish_now, record_dl_now, cancel_inner_now. exact Nw.
         -- intros o' Hne. rewrite finish_get_op. apply Nat.eqb_neq in Hne. rewrite Hne, record_dl_get_op, cancel_inner_get_op.
            apply Ot. apply Nat.eqb_neq. exact Hne.
+        -- cbn. discriminate.
       * eapply BC_timeout; [exact Hx|exact Hc|exact He|reflexivity|right; split; [exact Hk|reflexivity]].
-    + exists p1, [EvAccept (o_tgt p) (o_id p) KAsk]. split; [constructor; assumption|].
+    + exists p1, [EvAccept (o_tgt p) (o_id p) KAsk]. split; [constructor; try assumption; intros Hc; first [congruence | apply Tk; reflexivity]|].
       eapply BC_accept_ask; eassumption.
   - rewrite Eph. cbn [is_done]. rewrite Hexp. destruct (expired p s1) eqn:He.
     + exists (done_f (RErr ETimeout) p1), (EvDone (o_id p) (RErr ETimeout) :: dl_events (o_tgt p) (o_id p) (o_fn p) CxElapsed ++ []).
@@ -395,6 +404,7 @@ Proof.
         -- rewrite finish_now, record_dl_now, cancel_inner_now. exact Nw.
         -- intros o' Hne. rewrite finish_get_op. apply Nat.eqb_neq in Hne. rewrite Hne, record_dl_get_op, cancel_inner_get_op.
            apply Ot. apply Nat.eqb_neq. exact Hne.
+        -- cbn. discriminate.
       * eapply BC_timeout; [exact Hx|exact Hc|exact He|reflexivity|left; reflexivity].
-    + exists p1, []. split; [constructor; assumption|]. eapply BC_wait; eassumption.
+    + exists p1, []. split; [constructor; try assumption; intros Hc; first [congruence | apply Tk; reflexivity]|]. eapply BC_wait; eassumption.
 Qed.
